@@ -136,6 +136,7 @@ class C20(HistoryProperty):
         # dataset classes pickle by REFERENCE: a round trip carries none of their state (and in one process the copy IS the
         # original), so for graphs that contain one only values / failures / keys are compared, not which effects ran
         cfg = gen.swarm_cfg(rng, off=("shape_change",), on=("dsclass",))
+        cfg["plain_case_conditions"] = rng.random() < 0.4  # case(...).when(<plain value>, X): fails at evaluation, before and after alike
         cfg["lib_steps"] = rng.choice([False, False, "picklable", "picklable", "all"])  # pipeline steps taken from labrea.functions (the library's own helpers)
         spec = gen.prune(gen.gen_spec(rng, cfg))
         for n in spec["nodes"]:
